@@ -898,7 +898,7 @@ def run_wrappers(ctx, tap, n):
             steps = [(st[0], "kTimeLimit" if st[1] == "custom" else st[1]) if isinstance(st, tuple) else st for st in steps]
         rec = run_wrapper_history(tap, steps)
         rec["steps"] = steps; rec["alarm"] = alarm_route()
-        rec["req"] = "wrapper " + common.toks(rec["alarm"], len(rec["log"]), [[TOK.get(e["native"], 3), 1 if e["custom"] else 0] for e in rec["log"]])
+        rec["req"] = "swrapper " + common.toks(rec["alarm"], len(rec["log"]), [[TOK.get(e["native"], 3), 1 if e["custom"] else 0] for e in rec["log"]])
         recs.append(rec)
     outs = ctx.model.run([r["req"] for r in recs])
     for rec, out in zip(recs, outs):
